@@ -87,10 +87,12 @@ import random,sys
 random.seed(int('$SEED'))
 for i in range(64):
     open('$WORK/corpus/r%d'%i,'wb').write(bytes(random.getrandbits(8) for _ in range(random.choice([8,16,32,64,128,256]))))"
-    case "$FT" in stream_case) RUNS=30000000; ML=64;; ctor_case) RUNS=30000000; ML=96;; tree_history) RUNS=6000000; ML=1024;; schedule) RUNS=1500000; ML=1024;; esac
-    cargo +nightly fuzz run --sanitizer none "$FT" "$WORK/corpus" -- -runs=$RUNS -seed=$((SEED+1)) -max_len=$ML -len_control=0 -artifact_prefix="$WORK/art/" -print_final_stats=1 >"$WORK/fuzz.log" 2>&1
+    # 16 parallel libFuzzer jobs over a shared corpus, RUNS executions each (fixed work, seeded)
+    case "$FT" in stream_case) RUNS=2000000; ML=64;; ctor_case) RUNS=2000000; ML=96;; tree_history) RUNS=400000; ML=1024;; schedule) RUNS=100000; ML=1024;; esac
+    ( cd "$WORK" && cargo +nightly fuzz run --fuzz-dir "$HERE/harness/fuzz" --sanitizer none "$FT" "$WORK/corpus" -- -runs=$RUNS -seed=$((SEED+1)) -max_len=$ML -len_control=0 -artifact_prefix="$WORK/art/" -print_final_stats=1 -jobs=16 -workers=16 >"$WORK/fuzz.log" 2>&1 )
     fr=$?
-    grep -E "stat::number_of_executed_units|stat::new_units_added" "$WORK/fuzz.log" | sed "s/^/fuzz $FT: /"
+    cat "$WORK"/fuzz-*.log 2>/dev/null | grep -E "stat::number_of_executed_units" | awk '{s+=$2} END {print "fuzz '"$FT"': executed units (all jobs): " s}'
+    [ -n "$(ls -A "$WORK/art" 2>/dev/null)" ] && fr=1
     if [ "$fr" != 0 ]; then
       found=0
       for a in "$WORK"/art/*; do
